@@ -687,6 +687,9 @@ package larking
 //@   ensures [an-error-return-leaves-no-compressor-pending C04 C05] at "return err" zc == nil
 //@   assert at "herr := hd.handler(&m.opts, stream)" #2 [a-request-body-is-read-whatever-announces-it C03] (r.ContentLength > 0 || r.ContentLength == -1) ==> stream#2.hasBody
 //@   assert at "herr := hd.handler(&m.opts, stream)" #2 [no-body-is-read-from-an-empty-request C03] r.ContentLength == 0 ==> !stream#2.hasBody
+//@   count tooLarge1 `status.Error(codes.ResourceExhausted`
+//@   count tooLarge2 `status.Errorf(codes.ResourceExhausted`
+//@   ensures [a-request-is-refused-as-too-large-only-where-its-message-is-read C08] at every return tooLarge1 + tooLarge2 == 0
 //@   count zcloses `zc.Close(`
 //@   ensures [a-compressor-closed-by-the-body-is-not-closed-again-on-the-way-out C13 C04] at every return zcloses >= 1 ==> zc == nil
 //@   count loads `m.loadState(`
